@@ -7,45 +7,45 @@ V = os.path.dirname(os.path.abspath(__file__))
 # id -> (technique, level text, design ref)
 P = {
  "C01": ("who-may-write / call-order / value-flow rules over SSA + call graph (sipvet)",
-         "Decides structural necessary conditions only: single serialisation funnel for all 5 network writes, emit order and emit-all loop of Write/encodeHeader, Content-Length = len(body) through the canonical header comparator, who may insert/delete/rewrite headers (owned set Via/Route/Record-Route), payload immutability on the relay path, raw capture at parse, no message data as format string. Does not decide byte equality of relayed messages for all inputs. Also (shared rules): pooled buffers freed once, every decoded message owns its header list and body.", "4/C01"),
+         "Decides structural necessary conditions only: single serialisation funnel for all 5 network writes, emit order and emit-all loop of Write/encodeHeader, Content-Length = len(body) through the canonical header comparator, who may insert/delete/rewrite headers (owned set Via/Route/Record-Route), payload immutability on the relay path, raw capture at parse, no message data as format string. Does not decide byte equality of relayed messages for all inputs. Also (shared rules): pooled buffers freed once, every decoded message owns its header list and body. Rounds 4: decimal parse of Content-Length, receive buffers hold a maximal datagram, header values trimmed of SP/HTAB only, printers do not modify what they print, package structs printed through fmt have String in their method set.", "4/C01"),
  "C02": ("CFG must-pass/guard/count rules + phi-resolved value provenance on SSA (sipvet)",
-         "Decides structural necessary conditions only: exactly one PopVia before the hop lookup on every response path, dispatch guarded by the same lookup's success with its results as arguments, drop on failure, provenance of host/port/transport inside the hop function (received over sent-by, numeric rport over sent-by port), pop-one structure, default port constants, unsupported transport ends in an error. Does not decide the end-to-end history property. Also: the stamp the hop is read from (shared with C07), key/value accessors and GetHeader take the first matching entry, no per-datagram closure captures a variable shared by the iterations.", "4/C02"),
+         "Decides structural necessary conditions only: exactly one PopVia before the hop lookup on every response path, dispatch guarded by the same lookup's success with its results as arguments, drop on failure, provenance of host/port/transport inside the hop function (received over sent-by, numeric rport over sent-by port), pop-one structure, default port constants, unsupported transport ends in an error. Does not decide the end-to-end history property. Also: the stamp the hop is read from (shared with C07), key/value accessors and GetHeader take the first matching entry, no per-datagram closure captures a variable shared by the iterations. Round 4: host alias table, decimal/wide number parsing of Via port and rport, receive buffers hold a maximal datagram.", "4/C02"),
  "C03": ("CFG path counting, guard polarity and value provenance on SSA (sipvet)",
-         "Decides structural necessary conditions only: at most one dispatch per request on every CFG path, precedence Route -> static route -> backend -> drop as guard polarity, destination taken from the same lookup call, at most one successful write per dispatch (retry-aware), URI defaults, listener-address match clause. Does not decide service-name matching semantics. Also (shared with C13): the own-Route consumption guard and isSameAddress.", "4/C03"),
+         "Decides structural necessary conditions only: at most one dispatch per request on every CFG path, precedence Route -> static route -> backend -> drop as guard polarity, destination taken from the same lookup call, at most one successful write per dispatch (retry-aware), URI defaults, listener-address match clause. Does not decide service-name matching semantics. Also (shared with C13): the own-Route consumption guard and isSameAddress. Round 4: static-route table filing, next-hop port parsing and configuration wiring, URI host and port taken as received.", "4/C03"),
  "C04": ("guard/provenance rules + key-producer agreement over field-based value flow (sipvet)",
          "Decides structural necessary conditions only: pin lookup precedes the pool, bind sites exist under the right method guards with the right key/backend arguments, one key producer per namespace at put/get/remove, order of the loop steps, method gate. Does not decide stickiness over histories. Also: the transaction pin is read before it is dropped; requests from backends are stamped (shared with C07).", "4/C04"),
  "C05": ("lockset analysis + idiom recognition (cursor, paired update) on SSA (sipvet)",
-         "Decides structural necessary conditions only: every access to index/backends/backendMap under the pool mutex, add/remove keep list, map and notification in step, cursor advanced by exactly +1 modulo the current length, selection backends[i % n] with n read in the same critical section, empty pool -> error without dispatch. Does not compute the floor/ceil counts. Also: outside Add/RemoveBackend nothing writes into the backing array of the rotation; a connection closed by a backend's Close was created for that backend alone.", "4/C05"),
+         "Decides structural necessary conditions only: every access to index/backends/backendMap under the pool mutex, add/remove keep list, map and notification in step, cursor advanced by exactly +1 modulo the current length, selection backends[i % n] with n read in the same critical section, empty pool -> error without dispatch. Does not compute the floor/ceil counts. Also: outside Add/RemoveBackend nothing writes into the backing array of the rotation; a connection closed by a backend's Close was created for that backend alone. Round 4: no send on an unbuffered channel under a lock its receiver needs; subscribers of a host are notified from addressResolved only; the UDP backend socket is unconnected.", "4/C05"),
  "C06": ("CFG exactly-once/ordering rules + argument provenance on SSA (sipvet)",
-         "Decides structural necessary conditions only: addVia/addRecordRoute exactly once before the send on the backend path, guarded by the learned-route lookup on the routed path and absent otherwise; Via content (listener protocol/address/port, branch = z9hG4bK + fresh UUID part); insert position = first Via / first Record-Route; record-route policy guard; learning sites. Does not decide statistical branch uniqueness. Also: AddRoute replaces a stored transport unless it is the same listener by protocol, address and port.", "4/C06"),
+         "Decides structural necessary conditions only: addVia/addRecordRoute exactly once before the send on the backend path, guarded by the learned-route lookup on the routed path and absent otherwise; Via content (listener protocol/address/port, branch = z9hG4bK + fresh UUID part); insert position = first Via / first Record-Route; record-route policy guard; learning sites. Does not decide statistical branch uniqueness. Also: AddRoute replaces a stored transport unless it is the same listener by protocol, address and port. Round 4: Via decoders fail when a sub-decoder fails (no skipped entry); learned-table keys are the text as received.", "4/C06"),
  "C07": ("interprocedural field-based value-flow (provenance with negation parity) + guard rules (sipvet)",
-         "Decides structural necessary conditions only: every RawMessage.ReceivedSupport bit derives from the YAML field no-received through exactly one negation, stamp guarded by IsRequest and ReceivedSupport with the socket peer address/port as arguments and before dispatch, stamp content (entry 0, received always, rport only when present). Does not decide socket behaviour. Also: HasParam/SetParam/GetParam and GetHeader take the first matching entry whatever its value or spelling; no per-datagram closure captures a shared variable.", "4/C07"),
+         "Decides structural necessary conditions only: every RawMessage.ReceivedSupport bit derives from the YAML field no-received through exactly one negation, stamp guarded by IsRequest and ReceivedSupport with the socket peer address/port as arguments and before dispatch, stamp content (entry 0, received always, rport only when present). Does not decide socket behaviour. Also: HasParam/SetParam/GetParam and GetHeader take the first matching entry whatever its value or spelling; no per-datagram closure captures a shared variable. Round 4: no Via parameter makes the Via decoder give up; a TCP table entry expires by age only; no cached Via text.", "4/C07"),
  "C08": ("panic-obligation inventory with an interval/linear bounds prover over SSA; taint of allocation sizes (sipvet)",
-         "Decides structural necessary conditions only: every index/slice/make/division/type-assertion in network-reachable code is proved in range from dominating guards and library facts, network-derived allocation sizes are bounded, parse errors discard (UDP) or close-and-leave (TCP), no exit/panic calls, no recursion. Does not decide stalls, CPU or RSS. Also: a pointer/interface result of a fallible call is not kept (typed nil) where the failure is not excluded; lock order acyclic and non-reentrant (shared with C09). Named constructor assumptions are re-validated on the source.", "4/C08"),
+         "Decides structural necessary conditions only: every index/slice/make/division/type-assertion in network-reachable code is proved in range from dominating guards and library facts, network-derived allocation sizes are bounded, parse errors discard (UDP) or close-and-leave (TCP), no exit/panic calls, no recursion. Does not decide stalls, CPU or RSS. Also: a pointer/interface result of a fallible call is not kept (typed nil) where the failure is not excluded; lock order acyclic and non-reentrant (shared with C09). Named constructor assumptions are re-validated on the source. Round 4: typed-nil aware nil guards; receive buffers hold a maximal datagram; no decision on a read result before its error check.", "4/C08"),
  "C09": ("goroutine-root reachability + must-hold lockset + confinement classification of every field of the package's shared struct types (sipvet)",
-         "Decides structural necessary conditions only: each map/slice-typed field or package variable is immutable after construction, protected by one lock on all accesses, or confined to one message loop and not shared between listeners; lock order acyclic and non-reentrant; payload hand-off on channels. Does not decide delivery/liveness. Scalar, pointer and interface fields are classified too (additionally: atomic access, or published before the reading threads start).", "4/C09"),
+         "Decides structural necessary conditions only: each map/slice-typed field or package variable is immutable after construction, protected by one lock on all accesses, or confined to one message loop and not shared between listeners; lock order acyclic and non-reentrant; payload hand-off on channels. Does not decide delivery/liveness. Scalar, pointer and interface fields are classified too (additionally: atomic access, or published before the reading threads start). Round 4: send-under-lock on unbuffered channels; blocking hand-off to the loop; queued messages share no storage with the reader.", "4/C09"),
  "C10": ("buffer-extent and use-after-free typestate on SSA (sipvet)",
-         "Decides structural necessary conditions only: only b[:n] of a received pooled buffer is parsed, Free exactly once after the parse with no later use, nothing aliasing the buffer is stored in a Message, handler runs only on parse success, pool Alloc/Free shapes. The isolation conclusion is an argument from these rules, not a computed equality. Also: every decoded message owns its storage (NewMessage).", "4/C10"),
+         "Decides structural necessary conditions only: only b[:n] of a received pooled buffer is parsed, Free exactly once after the parse with no later use, nothing aliasing the buffer is stored in a Message, handler runs only on parse success, pool Alloc/Free shapes. The isolation conclusion is an argument from these rules, not a computed equality. Also: every decoded message owns its storage (NewMessage). Round 4: receive buffers hold a maximal datagram; the empty-line test follows the read's error check; serialisation into own storage.", "4/C10"),
  "C11": ("borrowed-slice lifetime analysis + API discipline on the framing path (sipvet)",
-         "Decides structural necessary conditions only: a slice borrowed from bufio.Reader.ReadLine is not used after the next read, the framing path uses only full-read APIs, one reader per connection hoisted out of the loop, body length = Content-Length read from the same reader, keep-alive skipping. Does not decide value-level decoding.", "4/C11"),
+         "Decides structural necessary conditions only: a slice borrowed from bufio.Reader.ReadLine is not used after the next read, the framing path uses only full-read APIs, one reader per connection hoisted out of the loop, body length = Content-Length read from the same reader, keep-alive skipping. Does not decide value-level decoding. Round 4: blocking hand-off to the loop; no read deadline on any connection; the length header is found in its compact spelling; the empty-line test follows the read's error check.", "4/C11"),
  "C12": ("guard/ordering rules + key-class agreement over value flow (sipvet)",
-         "Decides structural necessary conditions only: the inbound connection is registered as primary before dispatch under the request/TCP/hop/transaction guards, register/lookup/remove build the table key from the same producer with the same host resolution class, removal only on final responses, primary tried before secondary. Does not decide affinity over real interleavings.", "4/C12"),
+         "Decides structural necessary conditions only: the inbound connection is registered as primary before dispatch under the request/TCP/hop/transaction guards, register/lookup/remove build the table key from the same producer with the same host resolution class, removal only on final responses, primary tried before secondary. Does not decide affinity over real interleavings. Round 4: IsExpired by age only; the CSeq method is cut with strings.Fields.", "4/C12"),
  "C13": ("guard polarity / at-most-once / provenance rules on SSA (sipvet)",
-         "Decides structural necessary conditions only: the own-entry pop is guarded by port equality and same-address test on Route entry 0, at most once per message; next-hop pop guarded by !keepNextHopRoute wired from YAML; pop-one structure. Value-level re-encoding is C14. Also: the alias table (AddHostIP unconditional, GetIp table-first), GetRoute consults the header list on every call.", "4/C13"),
+         "Decides structural necessary conditions only: the own-entry pop is guarded by port equality and same-address test on Route entry 0, at most once per message; next-hop pop guarded by !keepNextHopRoute wired from YAML; pop-one structure. Value-level re-encoding is C14. Also: the alias table (AddHostIP unconditional, GetIp table-first), GetRoute consults the header list on every call. Round 4: default port of a port-less Route URI (shared with C03).", "4/C13"),
  "C14": ("format-taint flow, dropped-error detection, decoder/printer field and delimiter agreement (sipvet)",
-         "Decides structural necessary conditions only: no network-derived string is used as a fmt format, no decoder error is discarded, every decoded field is printed and vice versa, printers do not substitute defaults, stripped separators are re-emitted, accessor keys agree, lists are appended and printed in order. Does not decide the round-trip law itself. Also: package structs printed through fmt have String in the printed type's method set; a separator the decoder requires is written for every element; accessors do not mutate decoded values.", "4/C14"),
+         "Decides structural necessary conditions only: no network-derived string is used as a fmt format, no decoder error is discarded, every decoded field is printed and vice versa, printers do not substitute defaults, stripped separators are re-emitted, accessor keys agree, lists are appended and printed in order. Does not decide the round-trip law itself. Also: package structs printed through fmt have String in the printed type's method set; a separator the decoder requires is written for every element; accessors do not mutate decoded values. Round 4: blank-separated tokens cut with strings.Fields; fixed parts of strings.Split only where further parts are excluded; printers are pure; a failing sub-decoder makes the decoder fail. Two open findings: IPv6 references (decoder-grammar).", "4/C14"),
  "C15": ("guard polarity, max idiom and taint-free sweep schedule on SSA value flow (sipvet)",
-         "Decides structural necessary conditions only: expiry comparisons have the right polarity, lifetime = max(timeout, Expires), the sweep schedule does not derive from message data and the sweep is called from AddBackend, BYE / NOTIFY-terminated removal sites under their guards, timeout wiring from configuration. Does not decide anything about elapsed time. Also: the transaction pin is read before it is dropped in getBackendOfResponse.", "4/C15"),
+         "Decides structural necessary conditions only: expiry comparisons have the right polarity, lifetime = max(timeout, Expires), the sweep schedule does not derive from message data and the sweep is called from AddBackend, BYE / NOTIFY-terminated removal sites under their guards, timeout wiring from configuration. Does not decide anything about elapsed time. Also: the transaction pin is read before it is dropped in getBackendOfResponse. Round 4: the CSeq method is cut with strings.Fields; one canonical spelling of a backend's address.", "4/C15"),
  "C16": ("backward slice of the dialog key + symmetry/injectivity shape rules (sipvet)",
-         "Decides structural necessary conditions only: the dialog key depends on exactly Call-ID, both tags and both addresses (SIP URIs without params/headers), the canonical ordering compares the swapped halves themselves, the join is injective, missing tags yield no dialog. Does not decide URI equivalence beyond the included components. Also: ParseFromSpec and ParseTo cut the same pieces out of the header text; ParseSipURI cuts at the first '?', then the first ';', then the first '@'.", "4/C16"),
+         "Decides structural necessary conditions only: the dialog key depends on exactly Call-ID, both tags and both addresses (SIP URIs without params/headers), the canonical ordering compares the swapped halves themselves, the join is injective, missing tags yield no dialog. Does not decide URI equivalence beyond the included components. Also: ParseFromSpec and ParseTo cut the same pieces out of the header text; ParseSipURI cuts at the first '?', then the first ';', then the first '@'. Round 4: fixed parts of strings.Split only where further parts are excluded (tags containing '=').", "4/C16"),
  "C17": ("comparator-discipline lint over every string comparison on Header.name + table checks (sipvet)",
-         "Decides structural necessary conditions only: every header-name comparison goes through the case/compact-insensitive comparator, comparator internals (EqualFold + compact table through one normaliser), compact table vs registry for queried names, the Via walk visits every matching header. Does not decide the metamorphic relation on full pipelines. Also: GetHeader returns the first line the comparator accepts; every Via entry of every line teaches a route (shared with C06).", "4/C17"),
+         "Decides structural necessary conditions only: every header-name comparison goes through the case/compact-insensitive comparator, comparator internals (EqualFold + compact table through one normaliser), compact table vs registry for queried names, the Via walk visits every matching header. Does not decide the metamorphic relation on full pipelines. Also: GetHeader returns the first line the comparator accepts; every Via entry of every line teaches a route (shared with C06). Round 4: blank-separated tokens cut with strings.Fields (an entry after ', ' starts with a blank); printers do not cache their text.", "4/C17"),
  "C18": ("guard-order rules + map-iteration-order dependence detection (sipvet)",
-         "Decides structural necessary conditions only: exact hit before wildcard scan before default before error, no answer depends on map iteration order, next-hop port split/defaults, pattern anchoring and escaping order. Does not decide regexp semantics for other metacharacters. Also: AddRouteItem files each entry once under its unmodified destination and records first-seen destinations in order.", "4/C18"),
+         "Decides structural necessary conditions only: exact hit before wildcard scan before default before error, no answer depends on map iteration order, next-hop port split/defaults, pattern anchoring and escaping order. Does not decide regexp semantics for other metacharacters. Also: AddRouteItem files each entry once under its unmodified destination and records first-seen destinations in order. Round 4: the To host is looked up as received; createPreConfigRoute passes protocol, destinations and next hop as configured.", "4/C18"),
  "C19": ("argument provenance + counter-threshold idiom recognition on SSA (sipvet)",
-         "Decides structural necessary conditions only: added = resolved minus known and removed = known minus resolved, failure counter +1 with emptying on the 4th consecutive failure and reset, success reset and notify-on-change, add/remove events keyed consistently, close on remove. Does not decide DNS behaviour or notify ordering. Also: hostIPChanged walks both the added and the removed addresses on every notification; no resolver callback captures a variable shared by loop iterations.", "4/C19"),
+         "Decides structural necessary conditions only: added = resolved minus known and removed = known minus resolved, failure counter +1 with emptying on the 4th consecutive failure and reset, success reset and notify-on-change, add/remove events keyed consistently, close on remove. Does not decide DNS behaviour or notify ordering. Also: hostIPChanged walks both the added and the removed addresses on every notification; no resolver callback captures a variable shared by loop iterations. Round 4: canonical backend addresses (isIPv6, createHostPort, UDPBackend.GetAddress, static u.Host); TCPBackend.Close always closes; a new host's first addresses go through addressResolved.", "4/C19"),
  "C20": ("CFG rules on the send loops: success-only-after-write, bounded retry, cleanup (sipvet)",
-         "Decides structural necessary conditions only: nil is returned only on the err==nil edge of a write of the full serialised message, the retry loop has a constant bound, a failed connection is closed and forgotten before the next attempt, dial errors surface, primary forgotten then secondary tried. Does not decide socket behaviour.", "4/C20"),
+         "Decides structural necessary conditions only: nil is returned only on the err==nil edge of a write of the full serialised message, the retry loop has a constant bound, a failed connection is closed and forgotten before the next attempt, dial errors surface, primary forgotten then secondary tried. Does not decide socket behaviour. Round 4: RoundRobinBackend.Send returns the chosen backend's result; backends are dialled at the configured address.", "4/C20"),
 }
 
 CLAIMED = [l.strip() for l in open(os.path.join(V, "CLAIMED")).read().split() if l.strip()]
